@@ -49,6 +49,7 @@ class Session:
         self.arrivals: list = []           # (id, cid, cat, at)
         self.deliveries: list = []
         self.published: list = []          # expiration property of every publish
+        self.finished: set = set()         # consumers stopped with finish(): cancelled at the server, local queue given back
 
     async def open(self) -> None:
         await self.producer.connect()
@@ -69,7 +70,8 @@ class Session:
             return [m.properties.message_id for m in self.srv.queues[q].ready] if q in self.srv.queues else []
         un = sorted([[self.chan_to_c.get(cid, -1), A(QN[qn]), m.properties.message_id] for (cid, _t), (qn, m) in self.srv.unacked.items()],
                     key=lambda e: e[2])
-        loc = [[c, [k.id_ for (k, _p, _pp) in cons.queue._queue]] for c, (_b, cons, _cat) in sorted(self.consumers.items())]
+        loc = [[c, [k.id_ for (k, _p, _pp) in cons.queue._queue]] for c, (_b, cons, _cat) in sorted(self.consumers.items())
+               if c not in self.finished]
         return [A("S"), ids("rq"), ids("rq:delayed"), ids("rq:dead"), un, loc, sorted(m.properties.message_id for m in self.srv.dropped)]
 
     def rec(self, op: dict, reqs: list, obs) -> None:
@@ -91,6 +93,7 @@ class Session:
             self.arrivals.append({"id": message.header.properties.message_id, "c": c, "cat": cat, "at": CLOCK.us,
                                   "seq": len(self.ops), "redelivered": bool(message.delivery.redelivered)})
             return await orig(message)
+        on_new_message.__self__ = cons       # (`_Consumers.pop` reaches the consumer through the callback's `__self__`)
         cons.on_new_message = on_new_message
         await cons.start()
         self.consumers[c] = (b, cons, cat)
@@ -167,6 +170,16 @@ class Session:
             self.acked.add(mid)
         self.rec({"op": kind, "id": mid, "now": now}, [[A("rabbit." + kind), mid], [A("rabbit.settle"), CLOCK.us]], self.snapshot())
 
+    async def finish(self, c: int) -> None:
+        """`_RabbitConsumer.finish()`: cancel at the server, reject (requeue) everything still in the local queue.  What the
+        consumer already handed over stays held under its channel and can still be settled through its broker."""
+        _b, cons, _cat = self.consumers[c]
+        now = CLOCK.us
+        await cons.finish()
+        await self.settle()
+        self.finished.add(c)
+        self.rec({"op": "finish", "c": c, "now": now}, [[A("rabbit.finish"), c, now], [A("rabbit.settle"), CLOCK.us]], self.snapshot())
+
     async def advance(self, us: int) -> None:
         await asyncio.sleep(us / 1e6)
         await self.settle()
@@ -198,6 +211,7 @@ async def random_session(rng: Rng, n_ops: int, profile: str, box: list) -> Sessi
     cats = ["NORMAL"] + (["DEAD"] if profile in ("ttl", "mixed") and rng.random() < 0.6 else []) + \
            (["DELAYED"] if profile == "mixed" and rng.random() < 0.3 else [])
     late = rng.random() < 0.3
+    stop_at = rng.randrange(n_ops // 3, n_ops) if rng.random() < 0.35 else None
     if not late:
         for c, cat in enumerate(cats):
             await s.consumer(c, cat)
@@ -212,7 +226,13 @@ async def random_session(rng: Rng, n_ops: int, profile: str, box: list) -> Sessi
             await s.enqueue(f"a{nid}", "ta", 5 if profile == "fifo" else rng.choice([9, 5, 5, 0]), rng.choice(["", "{}"]),
                             gen_pd(rng, CLOCK.us, profile))
         elif r < 0.65 and s.consumers:
-            await s.consume(rng.choice(sorted(s.consumers)))
+            c = rng.choice(sorted(s.consumers))
+            if c in s.finished:
+                continue
+            if stop_at is not None and step >= stop_at and c not in s.finished and rng.random() < 0.5:
+                await s.finish(c)        # the consumer stops in the middle of the history (prefetched messages go back)
+                continue
+            await s.consume(c)
         elif r < 0.85 and s.held:
             mid = rng.choice(sorted(s.held))
             kind = rng.choice(["ack", "nack", "reject", "requeue"])
